@@ -165,14 +165,14 @@ def encodeToBitmap (qr : QRCode) : Out Image := do
   let img ← placeLoop used w cap.dataBits ((w + 3) * (w + 3)).toNat { x := w, y := w, dy := -1 } buf img
   let mut mask := qr.mask
   if mask = Gen.Micro.c_maskAuto then
-    let mut minPoint : Nat := 0
+    let mut maxPoint : Int := -1
     mask := 0
     for i in [0:Gen.Micro.c_maskMax.toNat] do
       let pat ← deref (← imgAt maskList i)
       let tmp ← Image.mask img used pat
-      let point ← tmp.point
-      if point < minPoint then
-        minPoint := point
+      let point ← tmp.pointMicro
+      if (point : Int) > maxPoint then
+        maxPoint := point
         mask := i
   -- `(format<<2)|int(mask)` on Go ints (two's complement)
   -- a negative mask makes the Go index negative (two's complement OR)
